@@ -393,7 +393,7 @@ fn stateright_count(kind: &'static str, wbits: usize, init: &[u128]) -> (usize, 
 
 pub fn c13(ctx: &Ctx) -> (CheckMeta, Outcome) {
     let mut tasks: Vec<Task> = vec![];
-    let maxlen = 3;
+    let maxlen = if ctx.thorough { 4 } else { 3 };
     for kind in KINDS {
         for wbits in [8usize, 16, 32, 64, 128] {
             for borrowed in [false, true] {
@@ -432,7 +432,7 @@ pub fn c13(ctx: &Ctx) -> (CheckMeta, Outcome) {
     let meta = CheckMeta {
         property: "C13".into(),
         level: "model_checking".into(),
-        rule: "explicit-state BFS to the fixpoint over the REAL objects (MemWordReader zero-extended and strict, MemWordWriterSlice, MemWordWriterVec; word types u8..u128; owned and borrowed storage), rebuilt by replaying the shortest history; initial arrays: every array of length 0..=3 over the letters {0, 1, MAX}; operations read_word, write_word(letter), word_pos, set_word_pos(0..=len+2 and 2^40), len; vector growth capped at 5 words and zero-extended reads at len+3 to close the space; every return value, the final contents (into_inner / the borrowed storage) and the cursor (word_pos) after every transition vs a Vec+cursor model (errors leave the cursor unchanged); the same transition system is run under stateright's BFS checker with real objects rebuilt from state snapshots and the unique state counts of the two engines must agree".into(),
+        rule: "explicit-state BFS to the fixpoint over the REAL objects (MemWordReader zero-extended and strict, MemWordWriterSlice, MemWordWriterVec; word types u8..u128; owned and borrowed storage), rebuilt by replaying the shortest history; initial arrays: every array of length 0..=3 (thorough 0..=4) over the letters {0, 1, MAX}; operations read_word, write_word(letter), word_pos, set_word_pos(0..=len+2 and 2^40), len; vector growth capped at 5 words and zero-extended reads at len+3 to close the space; every return value, the final contents (into_inner / the borrowed storage) and the cursor (word_pos) after every transition vs a Vec+cursor model (errors leave the cursor unchanged); the same transition system is run under stateright's BFS checker with real objects rebuilt from state snapshots and the unique state counts of the two engines must agree".into(),
         assumptions: vec!["cursor values at usize::MAX are outside the alphabet (as in the library's own fuzz harness)".into()],
     };
     (meta, out)
